@@ -15,15 +15,19 @@ import re
 from . import common as C
 
 RULE = ("cases = exhaustive enumeration of the finite option product {kh,ckh} x -t {absent,Z,Q,F2,F3} x "
-        "-c {absent,0,2,\"1,1\",H,\"0,T\",\"H,T\",x,\"1,\",T} x {-m} x {-r} x 6 link inputs (3_1, 4_1, Hopf PD code, "
-        "empty PD code, unknown name, non-closed PD code) = 2400 runs of the real binary, plus 600 random -c strings over "
-        "the parsers' alphabet; thorough adds -t {Gauss,Eisen,z,F5,empty,\"Z \"} x 97 further -c strings (integers at the "
+        "-c {absent,0,2,\"1,1\",H,\"0,T\",\"H,T\",x,\"1,\",T} + constant pairs {\"0,1\",\"0,2\",\"2,1\",\"2,3\",\"0,-1\","
+        "\"3,3\",\"0,1/2\"} (h zero with a non-zero constant t = a sequence, not a bigraded table; both non-zero; constants "
+        "that vanish only after reduction: 2 = 0 in F2, 3 = 0 in F3, so \"0,2\" over F2 and \"3,3\" over F3 are bigraded "
+        "and \"2,1\" over F2 is a sequence) x {-m} x {-r} x 6 link inputs (3_1, 4_1, Hopf PD code, "
+        "empty PD code, unknown name, non-closed PD code) = 4080 runs of the real binary, plus 600 random -c strings over "
+        "the parsers' alphabet; thorough adds -t {Gauss,Eisen,z,F5,empty,\"Z \"} x 94 further -c strings (integers at the "
         "i32/i64 boundaries, signs, rationals incl. 1/0, monomials H^2, H^{12}, H^{-1}, two-variable forms, white space, "
         "non-ASCII, malformed) on those links, 37 further link inputs (knot/link table names up to K11n34, split / kinked / "
         "multi-component PD codes, Borromean rings, JSON with white space, a file path, malformed JSON, unreadable paths) "
         "on the basic option lists, and 6000 random -c strings; three argv spellings (short, long, attached). A case is "
         "non-trivial when the binary printed a table (compared byte by byte with Table.v's layout of the cells returned "
-        "by the library API) or the application itself (not clap) reported an error; distinct = distinct (command, link, "
+        "by the library API for the display mode - bigraded table / sequence / generator grid - that the MODEL decided) "
+        "or the application itself (not clap) reported an error; distinct = distinct (command, link, "
         "-t, -c, -m, -r)")
 ASSUME = [
     "clap delivers option values verbatim (modelled, validated by the run); -g/-a/-s/-d/-f/--log are outside the property",
